@@ -102,6 +102,9 @@ class RuleSel(SymVal):
             fi = source.of_function(v); self.inlined[fi.key] = fi
             from pyvc.interp import BoundSource
             return BoundSource(fi, v, self.cls, self)
+        from pyvc.interp import private_helper
+        ok_, v_ = private_helper(it, self.cls, name, self, self.inlined)
+        if ok_: return v_
         raise Outside(f'Rule.{name}')
     def sym_truth(self, it): return True
     def sym_is(self, it, o): return self is o
@@ -178,6 +181,9 @@ class TabSel(SymVal):
             fi = source.of_function(v); self.inlined[fi.key] = fi
             from pyvc.interp import BoundSource
             return BoundSource(fi, v, self.cls, self)
+        from pyvc.interp import private_helper
+        ok_, v_ = private_helper(it, self.cls, name, self, self.inlined)
+        if ok_: return v_
         raise Outside(f'Tableau.{name}')
     def sym_truth(self, it): return True
 
